@@ -1,8 +1,17 @@
-(* C02 - Parsing ANSI-coded input.  Statements only.  parse models AnsiString.set_ansi_str (as repaired,
-   known_findings F2 F3 F20) on top of the tokenizer of C19 restricted to the terminator 'm'. *)
+(* C02 - Parsing ANSI-coded input preserves text and appearance.
+   Statements only.  parse models AnsiString.set_ansi_str (as repaired, known_findings F2 F3 F20) on top
+   of the tokenizer of C19 restricted to the terminator 'm'.  The terminal (term_run, style_of, teq) is
+   the SPECIFICATION of Spec/Terminal.v.  Input hypotheses of the style clause, both forced:
+     numeric_toks : every SGR sequence body is [0-9;]*  - for any other body a terminal ignores the whole
+                    sequence while the library keeps what Python's int() can read (Examples
+                    non_numeric_differs / lenient_int_differs in Proofs/ParseProofs.v);
+     only_sgr     : no ESC [ is left in the text, i.e. every control sequence of the input ends in 'm'
+                    - other control sequences are kept verbatim in base_str (as the statement says) but a
+                    terminal swallows them (Example not_only_sgr_differs). *)
 From AS Require Import Base Effects.
+From AS.Spec Require Import Terminal.
 From AS.Model Require Import Sgr Tokenizer Table Ops Render Parse.
-From AS.Proofs Require Import TokenizerProofs ParseBasics.
+From AS.Proofs Require Import TokenizerProofs ParseBasics RemoveProofs ApplyProofs ParseProofs.
 
 (* base_str is the input with exactly the accepted sequences removed; by C19 (tokenize_wf) every
    accepted sequence is ESC [ body m with a body free of final bytes, and re-inserting them restores
@@ -21,3 +30,39 @@ Print Assumptions C02_only_sgr_removed.
 Theorem C02_plain : forall w nid, no_esc w = true -> parse w nid = (mkA w [], nid).
 Proof. exact parse_plain. Qed.
 Print Assumptions C02_plain.
+
+(* THE STYLE CLAUSE: the terminal displays exactly base_str, and every character reports settings whose
+   effective style is exactly the state the terminal has when it displays that character - known codes
+   applied in order, extended-colour groups recognised wherever they occur, clear codes and reset
+   honoured, unknown codes and incomplete groups ignored, an empty parameter read as 0, several
+   sequences at one position, sequences at the very start or end *)
+Theorem C02_style : forall w nid,
+  let toks := tokenize false (Some [CH_m]) w in
+  numeric_toks toks = true -> only_sgr toks = true ->
+  let s := fst (parse w nid) in
+  let disp := fst (term_run tdefault w) in
+  map fst disp = base s
+  /\ forall i c ti, nth_error disp i = Some (c, ti) ->
+       teq ti (style_of (map stxt (active_at (tbl s) i))).
+Proof. exact parse_style. Qed.
+Print Assumptions C02_style.
+
+(* one sequence moves the effect dictionary exactly as it moves the terminal state *)
+Theorem C02_sequence : forall s cur key body nid p, params_of body = Some p -> AS.Proofs.SgrProofs.nodupk cur ->
+  let new := snd (fst (parse_step s cur key body nid)) in
+  teq (as_t' new) (sgr spec_class (as_t' cur) p) /\ AS.Proofs.SgrProofs.nodupk new.
+Proof. exact parse_step_dict. Qed.
+Print Assumptions C02_sequence.
+
+(* the constructed value satisfies the reachable-value invariant, for EVERY input string, and the
+   identities it allocates are exactly the fresh ones *)
+Theorem C02_wf : forall w nid,
+  rm_wf (fst (parse w nid)) /\ nid <= snd (parse w nid) /\ ids_lt (tbl (fst (parse w nid))) (snd (parse w nid)).
+Proof. exact parse_wf. Qed.
+Print Assumptions C02_wf.
+
+(* non-vacuity and the necessity of the hypotheses *)
+Example C02_example_hyps := ParseExamples.hyps_ok.
+Example C02_example_agree := ParseExamples.agree_ok.
+Example C02_needs_numeric := ParseExamples.non_numeric_differs.
+Example C02_needs_only_sgr := ParseExamples.not_only_sgr_differs.
